@@ -33,11 +33,11 @@ type SEvent struct {
 	Mode string // R | W for locks
 	Self bool   // acquire of a lock the thread already holds (self dead-lock)
 	// reads
-	RF     string // "" = own view (initial value or own last write); else "thread/trace/eventIdx" of the write read from
+	RF string // "" = own view (initial value or own last write); else "thread/trace/eventIdx" of the write read from
 	// writes
-	ValKey string // printable value (for matching / reports)
-	val    Value  // transferable value, if any
-	foreign bool  // value not transferable to another run
+	ValKey  string // printable value (for matching / reports)
+	val     Value  // transferable value, if any
+	foreign bool   // value not transferable to another run
 	// atomics
 	Delta int64 // RMW delta (add)
 	X     *Term // symbolic "net delta of other threads before me" introduced at this access
@@ -88,15 +88,15 @@ type ThreadTrace struct {
 
 // candidate write another thread performed on a cell this thread reads.
 type rfCand struct {
-	ID     string // thread/value
-	Thread string
-	Trace  int
-	Val    Value
-	ValKey string
+	ID      string // thread/value
+	Thread  string
+	Trace   int
+	Val     Value
+	ValKey  string
 	Foreign bool
-	Delete bool // map delete
-	Locks  map[string]lockRef // locks the writer held
-	LastIn map[string]bool    // per held lock: last write to the cell within that critical section
+	Delete  bool               // map delete
+	Locks   map[string]lockRef // locks the writer held
+	LastIn  map[string]bool    // per held lock: last write to the cell within that critical section
 }
 
 type schedShared struct {
@@ -116,24 +116,24 @@ type otherSeqs struct {
 }
 
 type threadCtxFull struct {
-	name     string
-	index    int
-	cells    map[*Value]string // registered pre-existing cells
-	maps     map[*Map]string
-	chans    map[*Chan]string
+	name      string
+	index     int
+	cells     map[*Value]string // registered pre-existing cells
+	maps      map[*Map]string
+	chans     map[*Chan]string
 	objByName map[string]Value // reverse: for transferring pointers
 }
 
 // ---------- registration of the pre-existing heap ----------
 
 type heapWalker struct {
-	in    *Interp
-	cells map[*Value]string
-	maps  map[*Map]string
-	chans map[*Chan]string
-	byName map[string]Value
+	in        *Interp
+	cells     map[*Value]string
+	maps      map[*Map]string
+	chans     map[*Chan]string
+	byName    map[string]Value
 	seenSlice map[*Value]bool
-	n     int
+	n         int
 }
 
 func (w *heapWalker) name(prefix string) string {
